@@ -51,6 +51,8 @@ def _values(t: str) -> st.SearchStrategy[Any]:
     raise AssertionError(t)
 
 
+# extras values may be surrogate-escaped strings (e.g. os.fsdecode of a non-UTF-8 file name): JSON carries them
+_extra_values = st.one_of(_safe_texts, _safe_texts, st.sampled_from(["r\udce9sum\udce9.csv", "\udcff", "a\ud800b"]))
 _log = st.fixed_dictionaries(
     {"level": st.sampled_from(LEVELS), "msg": _safe_texts},
     optional={
@@ -58,10 +60,12 @@ _log = st.fixed_dictionaries(
             st.text(alphabet="abcdefghijklmnopqrstuvwxyz_", min_size=1, max_size=8).filter(
                 lambda k: k not in ("level", "message", "self", "kwargs")
             ),
-            _safe_texts,
+            _extra_values,
             min_size=1,
             max_size=3,
-        )
+        ),
+        # inside process(): "out" = OutputCollector.client_log (default), "ctx" = CallContext.client_log
+        "via": st.sampled_from(["out", "ctx"]),
     },
 )
 
@@ -281,7 +285,7 @@ def dispose_service(run_id: str) -> None:
 
 
 def _mlog(lg: dict[str, Any]) -> dict[str, Any]:
-    return {"level": lg["level"], "msg": lg["msg"], "extra": dict(lg.get("extra", {}))}
+    return {"level": lg["level"], "msg": lg["msg"], "extra": dict(lg.get("extra", {}))}  # "via" is not observable
 
 
 def _mbatch(cols: list[dict[str, str]], rows: Any, meta: Any) -> dict[str, Any]:
